@@ -55,7 +55,7 @@ func (o c14Op) String() string {
 	return "debug.ToString(tree of " + "AB"[o.Arg:o.Arg+1] + ")"
 }
 
-var c14CfgNames = []string{"RegisterInfix(OP)", "RegisterPostfix(BANG)", "RegisterPrefix(PRE)", "UseStatementInterceptor", "UseExpressionInterceptor(re-entrant)", "WithTolerantMode", "WithSmartSemicolon"}
+var c14CfgNames = []string{"RegisterInfix(OP)", "RegisterPostfix(BANG)", "RegisterPrefix(PRE)", "UseStatementInterceptor(s1)", "UseExpressionInterceptor(re-entrant)", "WithTolerantMode", "WithSmartSemicolon", "UseStatementInterceptor(s2)"}
 var c14KoptNames = []string{"WithPrettyPrint(3 spaces,no semi)", "WithPrettyPrint()", "WithSourceMap()"}
 var c14Inputs = []string{"a OP b * c; x = n BANG", "PRE a\n(b) PRE c", "let", "f(function() { return - -a }) // c\nz BANG OP"}
 
@@ -63,6 +63,7 @@ type c14Builder struct {
 	lb    *lexer.Builder
 	pb    *parser.Builder
 	types map[string]token.Type
+	log   []string // which statement interceptor ran, in order (makes their order observable)
 }
 
 func newC14Builder() *c14Builder {
@@ -91,8 +92,15 @@ func (b *c14Builder) cfg(i int) {
 	case 2:
 		b.types["PRE"] = b.lb.RegisterTokenType("PRE")
 		b.pb.RegisterPrefixOperator(b.types["PRE"], mkPrefix)
-	case 3:
-		b.pb.UseStatementInterceptor(func(p *parser.Parser, next func() ast.Statement) ast.Statement { return next() })
+	case 3, 7:
+		name := "s1"
+		if i == 7 {
+			name = "s2"
+		}
+		b.pb.UseStatementInterceptor(func(p *parser.Parser, next func() ast.Statement) ast.Statement {
+			b.log = append(b.log, name)
+			return next()
+		})
 	case 4:
 		b.pb.UseExpressionInterceptor(func(p *parser.Parser, next func() ast.Expression) ast.Expression {
 			return p.ParseRemainingExpression(p.ParsePrefixExpression())
@@ -116,6 +124,7 @@ func c14Kopt(k *compiler.Compiler, i int) {
 }
 
 func c14ObserveBuild(b *c14Builder, in int) (string, *ast.Program) {
+	b.log = nil
 	o := parseWith(b.pb, c14Inputs[in])
 	if o.Panic != "" {
 		return "panic: " + o.Panic, nil
@@ -129,6 +138,7 @@ func c14ObserveBuild(b *c14Builder, in int) (string, *ast.Program) {
 	if o.Parser != nil {
 		fmt.Fprintf(&sb, ";ctx=%d,%v", o.Parser.CurrentContext(), o.Parser.IsInFunction())
 	}
+	fmt.Fprintf(&sb, ";interceptors=%s", strings.Join(b.log, ","))
 	return sb.String(), o.Prog
 }
 
@@ -267,7 +277,7 @@ func c14Alphabet(reduced bool) (all []c14Op, observing []c14Op) {
 	for w := 0; w < 2; w++ {
 		all = append(all, c14Op{Kind: "new", Who: w})
 		for a := range c14CfgNames {
-			if reduced && (a == 3 || a == 6) {
+			if reduced && (a == 6 || a == 7) {
 				continue
 			}
 			all = append(all, c14Op{Kind: "cfg", Who: w, Arg: a})
